@@ -3,7 +3,8 @@
 Space: base files (reference- and library-written, every overall digest type, chunk digests, flags, dictionary, 0-4
 chunks, full file and detached header).  For each: every header position x all 255 substitutes; every single-byte
 insertion/deletion with the header-size field re-encoded; the stored digest replaced by digests computed with
-plausible wrong recipes.  Oracle: no mutant opens (zck_init_read and lead+header in advanced mode); every base opens.
+plausible wrong recipes; and (allocator seam) every substitute again with each single allocation of the open answered with
+NULL.  Oracle: no mutant opens (zck_init_read and lead+header in advanced mode); every base opens.
 """
 import core, zckref, universe
 from universe import Cfg
@@ -139,6 +140,28 @@ def check_base(arg):
     return res
 
 
+def check_alloc(arg):
+    """header substitutions x every single allocation failure during the open (allocator seam)"""
+    name, base, lo, hi = arg
+    job = ["mode init", "allocfail 1", "base %s" % base.hex(), "subst %d %d" % (lo, hi)]
+    cases = core.drv("openenum", "\n".join(job) + "\n")
+    res = {"name": name, "n": 0, "opened": [], "bad": [], "allocs": 0}
+    for c in cases:
+        s = c.first("S")
+        if not c.done or s is None:
+            # a crash under an allocation failure is outside what C06 claims (see DESIGN.md section 7); it is counted, not judged
+            res["bad"].append(c.status())
+            continue
+        na = int(s["allocs"])
+        res["allocs"] = na
+        res["n"] += 255 * (na + 2)
+        if s["aopened"] != "-":
+            for it in s["aopened"].split(","):
+                v, k = it.split(":")
+                res["opened"].append((int(s["pos"]), int(v), int(k)))
+    return res
+
+
 def region(p, pos):
     if pos < 5:
         return "magic"
@@ -197,6 +220,30 @@ def run(ctx):
                 ctx.violation(sig, "%s: mutant %s still opens" % (r["name"], n),
                               {"kind": "file", "mode": r["mode"], "file": mh, "expect_open": False})
         ctx.outcomes.add(("rejected",))
+    # allocation failures: the comparison must not be skipped when an allocation on the way fails
+    quick = ctx.tier == "quick"
+    sel = bases[:3] if quick else bases[::2]
+    ajobs = []
+    for n, b in sel:
+        p = zckref.parse(b)
+        for lo in range(0, p.header_len, 6):
+            ajobs.append((n, b, lo, min(p.header_len, lo + (2 if quick else 6))))
+    crashes = 0
+    na = 0
+    for r in core.pmap(check_alloc, ajobs):
+        ctx.states += r["n"]; ctx.transitions += r["n"]; ctx.evaluations += r["n"]
+        crashes += len(r["bad"])
+        na = max(na, r["allocs"])
+        for pos, v, k in r["opened"]:
+            base = bmap[r["name"]]
+            p = zckref.parse(base)
+            ctx.violation({"check": "C06", "predicate": "mutant-opens-under-allocation-failure", "region": region(p, pos)},
+                          "%s: header byte %d (%s) %02x->%02x opens when allocation #%d of the open returns NULL" % (
+                              r["name"], pos, region(p, pos), base[pos], v, k),
+                          {"kind": "alloc", "name": r["name"], "base": base.hex(), "pos": pos})
+    ctx.extra["allocation_failure_part"] = {"bases": len(sel), "allocations_per_open": na, "cases_not_judged_because_the_open_crashed": crashes}
+    ctx.bounds["allocation_failures"] = "every single allocation of the open failing x all 255 substitutes at %s header position of %d bases" % (
+        "every third" if quick else "every", len(sel))
     ctx.sample({"base": bases[0][0], "header_len": results[0]["hlen"], "example_mutant": "byte 7 := 0x00 .. 0xff (255 values)"})
     ctx.sample({"base": bases[-1][0], "recipes": RECIPES})
     ctx.extra["base_files"] = [n for n, _ in bases]
@@ -210,6 +257,9 @@ def replay(case, quiet=True):
             return {"violated": True, "detail": c.status()}
         opened = c.first("E")["opened"] == "1"
         return {"violated": opened != case["expect_open"], "detail": {"opened": opened, "expected": case["expect_open"]}}
+    if case["kind"] == "alloc":
+        r = check_alloc((case["name"], bytes.fromhex(case["base"]), case["pos"], case["pos"] + 1))
+        return {"violated": bool(r["opened"]), "detail": r["opened"][:3]}
     if case["kind"] == "rerun":
         r = check_base((case["name"], bytes.fromhex(case["base"]), case["mode"]))
         return {"violated": bool(r["bad_status"]), "detail": r["bad_status"][:3]}
